@@ -10,6 +10,7 @@
 -/
 import Shangrla.Lemmas.SimpSpec
 import Shangrla.Props.C04
+import Shangrla.Props.C15
 
 namespace Shangrla.C04
 open Shangrla.Raire Shangrla.Raire.Spec Shangrla.Simp
@@ -337,6 +338,47 @@ theorem sim_then_simple (C : Contest α) (cvrs : List (Option (Ballot α))) (hC 
   exact ⟨simple_true C cvrs w r hC, simple_sufficient C cvrs w r hC hw hcomplete,
     fun hwf π hp hv => simple_complete_unique_winner C cvrs w r hC hw hwf hcomplete π hp hv⟩
 
+/-! ### relation to RAIRE
+
+The script runs both generators on the same contest and prints both audit costs. With the difficulty function
+RAIRE is given, the simple set (when complete) is one of the sets RAIRE's optimum ranges over. -/
+
+/-- a simple assertion with the difficulty the contest's difficulty function assigns to its tallies -/
+def priced {D : Type} (asn : Nat → Nat → Nat → Nat → D) (C : Contest α) (a : Assertion α Unit) : Assertion α D :=
+  { kind := a.kind, winner := a.winner, loser := a.loser, eliminated := a.eliminated, votesW := a.votesW,
+    votesL := a.votesL, difficulty := asn a.votesW a.votesL (C.totBallots - (a.votesW + a.votesL)) C.totBallots,
+    rulesOut := [] }
+
+/-- a complete simple set, priced, is a competing set in the sense of C15: true assertions of the family RAIRE
+searches, excluding every alternative winner -/
+theorem simple_complete_competing {D : Type} (asn : Nat → Nat → Nat → Nat → D) (C : Contest α)
+    (cvrs : List (Option (Ballot α))) (winner runnerUp : α) (hC : C.candidates.Nodup)
+    (hw : winner ∈ C.candidates) (hr : runnerUp ∈ C.candidates)
+    (hcomplete : (simpleIrvAssertions C cvrs winner runnerUp).2 = []) :
+    C15.Competing asn C cvrs winner ((simpleIrvAssertions C cvrs winner runnerUp).1.map (priced asn C)) := by
+  constructor
+  · intro b hb
+    obtain ⟨a, ha, rfl⟩ := List.mem_map.1 hb
+    obtain ⟨h1, h2, h3, h4, h5, _⟩ := simple_fam (fun _ _ _ _ => ()) C cvrs winner runnerUp hC hw hr a ha
+    exact ⟨h1, h2, h3, h4, h5, rfl⟩
+  · intro π hπ
+    obtain ⟨a, ha, hc⟩ := simple_sufficient C cvrs winner runnerUp hC hw hcomplete π hπ
+    exact ⟨priced asn C a, List.mem_map.2 ⟨a, ha, rfl⟩, hc⟩
+
+/-- **If the simple generator can form all its assertions, RAIRE finds an audit too, and never a costlier one**:
+RAIRE's result is non-empty and its largest difficulty is at most the largest difficulty in the simple set. -/
+theorem simple_complete_raire {D : Type} [DiffOrd D] [DiffOrd.Lawful D] (asn : Nat → Nat → Nat → Nat → D)
+    (C : Contest α) (cvrs : List (Option (Ballot α))) (winner runnerUp : α) (hC : C.candidates.Nodup)
+    (hn : 2 ≤ C.candidates.length) (hw : winner ∈ C.candidates) (hr : runnerUp ∈ C.candidates)
+    (hcomplete : (simpleIrvAssertions C cvrs winner runnerUp).2 = [])
+    (fuel : Nat) (as : List (Assertion α D)) (h : computeRaireAssertions asn C cvrs winner fuel = Res.ok as) :
+    as ≠ [] ∧ ∀ m m', C15.IsMaxDiff as m →
+      C15.IsMaxDiff ((simpleIrvAssertions C cvrs winner runnerUp).1.map (priced asn C)) m' →
+      DiffOrd.le m m' = true := by
+  have hS := simple_complete_competing asn C cvrs winner runnerUp hC hw hr hcomplete
+  have hne := C15.raire_nonempty_of_possible asn C cvrs winner hC hn fuel as h _ hS
+  exact ⟨hne, fun m m' hm hm' => (C15.raire_optimal asn C cvrs winner hC hn fuel as h hne m hm).2 _ m' hS hm'⟩
+
 /-! ### Non-vacuity: concrete contests (tests of the statements' hypotheses, not of the theorems)
 
 `CEx`, `cvrsEx` of Props/C04.lean: candidates 0, 1, 2; ballots 4 x (0,1), 3 x (1,2), 2 x (2,1): candidate 2 is
@@ -374,6 +416,9 @@ example : (simpleIrvAssertions CEx cvrsEx 1 0).1 ≠ [] ∧
   ⟨by decide, simple_true CEx cvrsEx 1 0 (by decide),
    simple_sufficient CEx cvrsEx 1 0 (by decide) (by decide) (by rfl)⟩
 instance (b : Ballot Nat) : Decidable (BallotWF b) := by unfold BallotWF; infer_instance
+-- `simple_complete_raire` on this contest: RAIRE (C04's example run) returns NEB(1,2) and NEN(1,0 | 2), the simple set
+-- priced with the same difficulty function is the same two assertions: largest difficulty 9000 on both sides
+example : (simpleIrvAssertions CEx cvrsEx 1 0).1.map (fun a => (priced asnEx CEx a).difficulty) = [9000, 9000] := by rfl
 -- the hypotheses of `simple_complete_wrong_winner` for reported winner 0: the ballots are well formed and the
 -- order 2, 0, 1 is a possible IRV count ending in 1
 example : (∀ b ∈ cvrsEx.filterMap id, BallotWF b) ∧ Alt CEx.candidates 0 [2, 0, 1] ∧
